@@ -100,6 +100,34 @@ class Ctx:
         os.makedirs(d, exist_ok=True)
         return d
 
+    def tlaps(self, name, module, needs=(), timeout=900):
+        """Check the proofs of spec/<module>.tla with the TLA+ proof system (tlapm) in a scratch copy
+        (module + the modules it extends): every obligation must be proved.  An unproved obligation
+        means the specified design no longer carries the stated invariant: reported as a violation."""
+        d = os.path.join(self.work, "tlaps-" + name)
+        shutil.rmtree(d, ignore_errors=True)
+        os.makedirs(d)
+        for m in (module,) + tuple(needs):
+            shutil.copy(os.path.join(SPEC, m + ".tla"), d)
+        rc, out, dt = sh(["tlapm", "--threads", "8", "--cleanfp", module + ".tla"], cwd=d, timeout=timeout)
+        with open(os.path.join(self.work, "tlaps-%s.log" % name), "w") as f:
+            f.write(out)
+        if rc == 124:
+            raise ToolError("tlapm timed out on %s (%ds)" % (module, timeout))
+        m = re.search(r"All (\d+) obligations? proved", out)
+        failed = re.search(r"(\d+)/(\d+) obligations? failed", out)
+        shutil.rmtree(d, ignore_errors=True)
+        if m:
+            self.cov.setdefault("tlaps_runs", []).append({"name": name, "module": module, "obligations_proved": int(m.group(1)),
+                                                          "wall_s": round(dt, 1)})
+            return int(m.group(1))
+        if failed:
+            what = "%s of %s proof obligations of %s are not proved" % (failed.group(1), failed.group(2), module)
+            path = self.save_replay({"kind": "tlaps", "module": module, "what": what, "tlapm_output_tail": out.splitlines()[-60:]})
+            self.violations.append({"what": what, "key": "proof|%s" % module, "site": "proof|" + module, "replay": path})
+            return 0
+        raise ToolError("tlapm failed on %s (rc=%d):\n%s" % (module, rc, "\n".join(out.splitlines()[-25:])))
+
     def tlc(self, name, module, cfg=None, sim=None, workers=8, timeout=900, env=None, depth=None,
             emit=True, expect_violation=False):
         """Run TLC on spec/<module>.tla with spec/<cfg>.  sim=(num, depth) switches to
